@@ -174,7 +174,7 @@ def parse_template(path):
             else:
                 if kw == "end":
                     out.append(("fn", cur)); cur = None; cur_dir = None
-                elif kw in ("props", "nocanary", "mutself", "macro", "block"):
+                elif kw in ("props", "nocanary", "mutself", "macro", "block", "binops", "refarg"):
                     cur.directives.append((kw, rest, [], i + 1))
                 else:
                     cur_dir = (kw, rest, [], i + 1)
@@ -306,6 +306,47 @@ def tok_text(src, toks, a, b):
     return src[toks[a].start:toks[b - 1].end]
 
 FOR_COUNTER = [0]
+
+OPNAMES = {"+": "add", "-": "sub", "&": "bitand", "|": "bitor"}
+def desugar_binops(text):
+    """E9-op: `L OP &ident` with OP in + - & | (operands: identifier, method-call chain or parenthesised group) becomes
+    `L.add(&ident)` / `.sub` / `.bitand` / `.bitor`, left-associatively, innermost first. Returns (new_text, count)."""
+    count = 0
+    while True:
+        toks = rlex.lex(text)
+        br = rlex.match_brackets(toks)
+        hit = None
+        for i in range(1, len(toks) - 2):
+            t = toks[i]
+            if t.kind == "punct" and t.text in OPNAMES and toks[i + 1].kind == "punct" and toks[i + 1].text == "&" \
+                    and toks[i + 2].kind == "ident" and (toks[i - 1].kind == "ident" or (toks[i - 1].kind == "close" and toks[i - 1].text == ")")):
+                # the right operand must end there (no field/method chain after it)
+                if i + 3 < len(toks) and toks[i + 3].kind == "punct" and toks[i + 3].text in (".", "::"):
+                    continue
+                if i + 3 < len(toks) and toks[i + 3].kind == "open" and toks[i + 3].text in ("(", "["):
+                    continue
+                hit = i; break
+        if hit is None:
+            return text, count
+        i = hit
+        rev = {c: o for o, c in br.items()}
+        j = i - 1
+        while True:
+            if toks[j].kind == "close" and toks[j].text == ")":
+                j = rev[j]
+                if j - 1 >= 0 and toks[j - 1].kind == "ident" and not (toks[j - 1].text in ("if", "while", "match", "return", "in")):
+                    j -= 1
+                else:
+                    break
+            elif toks[j].kind != "ident":
+                j += 1; break
+            if j - 1 >= 0 and toks[j - 1].kind == "punct" and toks[j - 1].text == "." and j - 2 >= 0:
+                j -= 2; continue
+            break
+        left = text[toks[j].start:toks[i - 1].end]
+        new = f"{left}.{OPNAMES[toks[i].text]}(&{toks[i + 2].text})"
+        text = text[:toks[j].start] + new + text[toks[i + 2].end:]
+        count += 1
 
 def rewrite_for(src, toks, br, loop, spec_text, idx_name, log, kind_hint=None):
     """E7: returns (start,end,replacement) for the loop header incl. opening brace."""
@@ -533,6 +574,62 @@ def process_fn(repo, glob, fs, log):
         what = f"{fs.name} (template line {tl})"
         if kw in ("block", "nocanary", "props", "macro"):
             continue
+        if kw == "refarg":
+            # E1: `impl Borrow<T>` parameters are `&T` in the Verus signature: every by-value argument of the named methods
+            # is passed as `&(arg)` (a `&&T` argument coerces to `&T`, so references stay correct)
+            names = rest.split()
+            for k in range(tlo, thi - 2):
+                if toks[k].kind == "punct" and toks[k].text == "." and toks[k + 1].kind == "ident" and toks[k + 1].text in names \
+                        and toks[k + 2].kind == "open" and toks[k + 2].text == "(":
+                    o = k + 2; c = br[o]
+                    if c == o + 1: continue
+                    if toks[o + 1].kind == "punct" and toks[o + 1].text == "&": continue
+                    # single argument only
+                    kk = o + 1; multi = False
+                    while kk < c:
+                        if toks[kk].kind == "open": kk = br[kk] + 1; continue
+                        if toks[kk].kind == "punct" and toks[kk].text == ",": multi = True; break
+                        kk += 1
+                    if multi: continue
+                    s0, e0 = toks[o + 1].start, toks[c - 1].end
+                    if is_covered(s0): continue
+                    ed.add(s0, s0, "&(", "E1", "refarg"); ed.add(e0, e0, ")", "E1", "refarg"); logrule("E1", s0, src[s0:e0], "&(" + src[s0:e0] + ")")
+            continue
+        if kw == "binops":
+            # E9-op on every statement of the body that contains `OP &ident`
+            k = tlo
+            while k < thi - 2:
+                t = toks[k]
+                if t.kind == "punct" and t.text in OPNAMES and toks[k + 1].kind == "punct" and toks[k + 1].text == "&" and toks[k + 2].kind == "ident" \
+                        and (toks[k - 1].kind == "ident" or (toks[k - 1].kind == "close" and toks[k - 1].text == ")")):
+                    # enclosing statement: back to the previous `=`, `;`, `{` at this nesting level, forward to the next `;`
+                    a = k - 1; depth = 0
+                    while a > tlo:
+                        ta = toks[a]
+                        if ta.kind == "close": depth += 1
+                        elif ta.kind == "open":
+                            if depth == 0: break
+                            depth -= 1
+                        elif depth == 0 and ta.kind == "punct" and ta.text in ("=", ";"): break
+                        a -= 1
+                    a += 1
+                    b = k; depth = 0
+                    while b < thi:
+                        tb = toks[b]
+                        if tb.kind == "open": depth += 1
+                        elif tb.kind == "close":
+                            if depth == 0: break
+                            depth -= 1
+                        elif depth == 0 and tb.kind == "punct" and tb.text == ";": break
+                        b += 1
+                    s0, e0 = toks[a].start, toks[b - 1].end
+                    new_text, cnt = desugar_binops(src[s0:e0])
+                    if cnt and not is_covered(s0):
+                        ed.add(s0, e0, new_text, "E9-op", "binops"); logrule("E9-op", s0, src[s0:e0], new_text)
+                        covered.append((s0, e0))
+                    k = b
+                k += 1
+            continue
         if kw == "mutself":
             # E16: `mut self` parameter (unsupported by Verus) -> `self` rebound to a mutable local, body tokens renamed
             for k in range(tlo, thi):
@@ -550,6 +647,13 @@ def process_fn(repo, glob, fs, log):
                 raise VxError(f"lost anchor: {fs.name}: loop #{n_} not found ({len(loops)} loops in body)")
             at = toks[loops[n_ - 1]["close"]].start
             ed.add(at, at, "\n" + "\n".join(payload) + "\n", "E13", f"loop end #{n_}")
+        elif kw == "loopstart":
+            # ghost text inserted at the very beginning of the n-th loop's body, after the loop variable binding (E13)
+            n_ = int(rest.split()[0])
+            if n_ < 1 or n_ > len(loops):
+                raise VxError(f"lost anchor: {fs.name}: loop #{n_} not found ({len(loops)} loops in body)")
+            at = toks[loops[n_ - 1]["open"]].end
+            ed.add(at, at, "\n" + "\n".join(payload) + "\n", "E13", f"loop start #{n_}")
         elif kw == "loop":
             loop_spec[int(rest.split()[0])] = "\n".join(payload)
         elif kw == "for":
@@ -583,6 +687,38 @@ def process_fn(repo, glob, fs, log):
             for (s, e) in spans:
                 if nth == "all" and is_covered(s): continue
                 ed.add(s, e, b, rule, kw); logrule(rule, s, src[s:e], b)
+        elif kw == "closure":
+            # E15: `//@closure "|x|" [n] => "|x: T| -> (r: R) ensures ..."`: annotate a closure's header; an expression body
+            # (which extends to the end of the enclosing argument list) is wrapped in braces as Verus requires
+            p = parse_quoted(rest)
+            words = [x[1] for x in p if x[0] == "w"]
+            qs = [x[1] for x in p if x[0] == "q"]
+            nth = 0
+            for w in words:
+                if w.isdigit(): nth = int(w)
+            try:
+                s0, e0 = find_text(src, lo, hi, qs[0], nth, what)
+            except VxError as ex:
+                SKIPPED.append({"fn": fs.fid(), "kind": kw, "rule": "E15", "text": qs[0][:120], "why": str(ex)[:200]})
+                continue
+            # innermost bracket pair enclosing the closure header
+            enc = None
+            for o, c in br.items():
+                if toks[o].start < s0 and toks[c].start >= e0 and (enc is None or toks[o].start > toks[enc[0]].start):
+                    enc = (o, c)
+            kb = next(k for k in range(tlo, thi) if toks[k].start >= e0)
+            if toks[kb].kind == "open" and toks[kb].text == "{":
+                ed.add(s0, e0, qs[1], "E15", "closure"); logrule("E15", s0, src[s0:e0], qs[1])
+            else:
+                # body ends at the enclosing close bracket or at a top-level comma before it
+                endk = enc[1]; k = kb
+                while k < enc[1]:
+                    if toks[k].kind == "open": k = br[k] + 1; continue
+                    if toks[k].kind == "punct" and toks[k].text == ",": endk = k; break
+                    k += 1
+                be = toks[endk].start
+                body = src[e0:be]
+                ed.add(s0, be, qs[1] + " {" + body + " }", "E15", "closure"); logrule("E15", s0, src[s0:be], qs[1] + " {" + body.strip() + " }")
         elif kw == "hint":
             p = parse_quoted(rest)
             words = [x[1] for x in p if x[0] == "w"]
